@@ -33,6 +33,7 @@ def main(argv=None):
     ap.add_argument("--fidelity", action="store_true")
     ap.add_argument("--only")
     args = ap.parse_args(argv)
+    os.environ["VERIF_SEED"] = str(args.seed)     # one integer decides everything, wherever it is read
     try:
         if args.target == "selftest":
             from cocosim import selftest
